@@ -6,6 +6,7 @@ import os
 import warnings
 import random
 import signal
+import time
 import sys
 
 sys.path.insert(0, os.environ.get('CARDUTIL_REPO', '/repo'))
@@ -33,6 +34,10 @@ def debug_logging(on):
         root.setLevel(logging.WARNING)
 
 
+THREADED = False      # set by isocheck.threaded(): several harness threads drive the library at once; the process-wide
+                      # environment switches (Env) and the signal-based watchdog are then left alone
+
+
 DST_TZ = 'CET-1CEST,M3.5.0,M10.5.0/3'      # a POSIX rule (no tz database needed): clocks skip 02:00-03:00 on the last Sunday of March
 
 
@@ -53,6 +58,8 @@ class Env:
         self.modes = ()
         if every > 0 and h % every == 1:
             self.modes = tuple(m for m in self.MODES[(h // every) % len(self.MODES)] if m in allow)
+        if THREADED:
+            self.modes = ()
         self.on = 'debug' in self.modes
         self._undo = []
 
@@ -131,13 +138,17 @@ class Watchdog:
         raise Watchdog.Hang()
 
     def __enter__(self):
-        self.old = signal.signal(signal.SIGALRM, self._fire)
-        signal.setitimer(signal.ITIMER_REAL, self.secs)
+        import threading
+        self.active = not THREADED and threading.current_thread() is threading.main_thread()
+        if self.active:
+            self.old = signal.signal(signal.SIGALRM, self._fire)
+            signal.setitimer(signal.ITIMER_REAL, self.secs)
         return self
 
     def __exit__(self, *a):
-        signal.setitimer(signal.ITIMER_REAL, 0)
-        signal.signal(signal.SIGALRM, self.old)
+        if self.active:
+            signal.setitimer(signal.ITIMER_REAL, 0)
+            signal.signal(signal.SIGALRM, self.old)
         return False
 
 
@@ -157,9 +168,39 @@ def exc_outcome(ex):
 FINALISERS = ('finalise', 'seek0', 'close')
 
 
+class YieldingIO(io.BytesIO):
+    """A file object implemented in Python that lets other threads run around every transfer - what a device, a pipe, a
+    compressing wrapper or a network file does by blocking.  Used for every file when several harness threads drive the
+    library at once: data handed over or taken must be the caller's own by the time the call returns."""
+
+    def read(self, *a):
+        r = super().read(*a)
+        time.sleep(0)
+        return r
+
+    def readinto(self, b):
+        n = super().readinto(b)
+        time.sleep(0)
+        return n
+
+    def write(self, b):
+        time.sleep(0)
+        return super().write(b)
+
+
+def new_file(data=b''):
+    return YieldingIO(data) if THREADED else io.BytesIO(data)
+
+
 class KeepOpen(io.BytesIO):
     """BytesIO whose content survives close() (Block1014.close closes the wrapped file)."""
 
+    def close(self):
+        self.closed_value = self.getvalue()
+        super().close()
+
+
+class KeepOpenYielding(YieldingIO):
     def close(self):
         self.closed_value = self.getvalue()
         super().close()
@@ -172,7 +213,7 @@ def run_blocker(chunks, finaliser, hazards=False):
 
 
 def _run_blocker(chunks, finaliser, hazards):
-    f = KeepOpen()
+    f = KeepOpenYielding() if THREADED else KeepOpen()
     b = mciipm.Block1014(f)
     buf = bytearray(max([len(c) for c in chunks] + [1]))
     for i, c in enumerate(chunks):
@@ -199,15 +240,15 @@ def _run_blocker(chunks, finaliser, hazards):
 
 
 def run_oneshot_block(data):
-    out = io.BytesIO()
-    mciipm.block_1014(io.BytesIO(data), out)
+    out = new_file()
+    mciipm.block_1014(new_file(data), out)
     return out.getvalue()
 
 
 def run_unblocker(blocked, sizes):
     """sizes: list of ints; 0 means read() with no argument. Returns list of returned byte strings."""
     with Env('unblk', len(blocked), sizes[:12]):
-        f = io.BytesIO(blocked)
+        f = new_file(blocked)
         u = mciipm.Unblock1014(f)
         if (len(blocked) + len(sizes)) % 3 == 1:
             f.seek(0)                # the caller positions the file after wrapping it: nothing has been read yet
@@ -218,9 +259,9 @@ def run_unblocker(blocked, sizes):
 
 
 def run_oneshot_unblock(blocked):
-    out = io.BytesIO()
+    out = new_file()
     try:
-        mciipm.unblock_1014(io.BytesIO(blocked), out)
+        mciipm.unblock_1014(new_file(blocked), out)
     except BaseException as ex:  # noqa
         return exc_outcome(ex), b''
     return {'kind': 'ok'}, out.getvalue()
@@ -283,7 +324,7 @@ def _vbs_write_events(recs, blocked, fins, api, fileobj, peek):
         events.append(ev('fin', 1))
         events.append(ev('file', 0, '', data))
         return events, data
-    f = fileobj if fileobj is not None else io.BytesIO()
+    f = fileobj if fileobj is not None else new_file()
     fins = list(fins)
     if api == 'mixed':
         # the convenience method and the plain method mixed on one writer
@@ -384,7 +425,7 @@ def read_events(data, blocked, make_reader=None, limit=100000, project=None, fil
 
 def _read_events(data, blocked, make_reader, limit, project, fileobj):
     import zlib
-    f = fileobj if fileobj is not None else io.BytesIO(data)
+    f = fileobj if fileobj is not None else new_file(data)
     events = []
     try:
         with Watchdog(5.0):
